@@ -1058,32 +1058,32 @@ def _positions(v):
 def _classify(anc):
     real = [a for a in anc if a[0] != "seq"]
     if not real:
-        return ("plain", "the value itself" if not anc else "element of a container")
+        return ("plain", "the value itself" if not anc else "element of a container", None)
     a = real[-1]
     if a[0] == "call":
         name = a[1] if isinstance(a[1], str) else show(a[1])
         if name in INDEXED:
-            return ("index", name)
+            return ("index", name, None)
         if name in ("diff", "Derivative", "isinstance", "len", "id", "hash", "str", "repr"):
-            return ("scalar", name)
+            return ("scalar", name, None)
         if name == "dict":
-            return ("plain", "element of a container")
-        return ("call", name)
+            return ("plain", "element of a container", None)
+        return ("call", name, a[2])
     if a[0] == "recv":
-        return ("scalar", f"receiver of .{a[1]}")
+        return ("scalar", f"receiver of .{a[1]}", None)
     if a[0] == "mcall":
         if a[1] in ("subs", "xreplace", "replace"):
-            return ("eliminated", a[1]) if a[2] == 0 else ("introduced", a[1])
+            return ("eliminated", a[1], None) if a[2] == 0 else ("introduced", a[1], None)
         if a[1] in ("diff", "has", "coeff", "count", "index", "get", "pop", "remove", "discard", "atoms"):
-            return ("scalar", a[1])
+            return ("scalar", a[1], None)
         if a[1] in _STORE_METHODS:
-            return ("store", f"{show(a[3])[:40]}.{a[1]}")
-        return ("call", f".{a[1]}")
+            return ("store", f"{show(a[3])[:40]}.{a[1]}", None)
+        return ("call", f".{a[1]}", a[2])
     if a[0] == "store":
-        return ("store", a[1])
+        return ("store", a[1], None)
     if a[0] == "scalar" or (a[0] == "op" and a[1] in _SCALAR_OPS):
-        return ("scalar", a[1])
-    return ("call", a[1])
+        return ("scalar", a[1], None)
+    return ("call", a[1], None)
 
 
 def _local_names(fn):
@@ -1125,21 +1125,53 @@ def _outer_function(node):
     return out
 
 
-def _site_uses(ctx, fn, call, names):
-    """Every position the object created at ``call`` (and its aliases inside ``fn``) takes: [(kind, detail, node)]."""
+def _callee(ctx, fn, name, k):
+    """The package function a call term refers to and the parameter that receives argument ``k`` (None if unknown)."""
+    last = name.lstrip(".").split(".")[-1]
+    cands = [f_ for q, f_ in fn._module.functions.items() if q.split(".")[-1] == last]
+    if len(cands) != 1:
+        cands = [f_ for m in ctx.model.modules.values() for q, f_ in m.functions.items() if q.split(".")[-1] == last]
+    if len(cands) != 1:
+        return None, None
+    callee = cands[0]
+    params = [x.arg for x in callee.args.posonlyargs + callee.args.args]
+    if params[:1] in (["self"], ["cls"]):
+        params = params[1:]
+    allp = params + [x.arg for x in callee.args.kwonlyargs]
+    if isinstance(k, str):
+        return (callee, k) if k in allp else (None, None)
+    if isinstance(k, int) and k < len(params):
+        return callee, params[k]
+    return None, None
+
+
+def _site_uses(ctx, fn, names, start, aliases, created, depth=0):
+    """Every position the created object (and its aliases inside ``fn``) takes: [(kind, detail, node)].  ``start``: the
+    nodes to begin with, ``aliases``: local name -> evaluated value that is / holds the created object."""
     sx = Symex(ctx.model, inline=lambda q: False, what=f"R18f {getattr(fn, '_qual', fn.name)}", max_paths=256)
     local = _local_names(fn)
-    aliases = {}                # local name -> evaluated value that is / holds the created object
-    if isinstance(call.func, ast.Name) and call.func.id in local:
-        aliases[call.func.id] = names.denotes(call.func)        # a local alias of the class
+    aliases = dict(aliases)
     done, found = set(), []
-    work = [call]
+    work = list(start)
+
+    def note(kd, det, k, node):
+        if kd == "plain":
+            return
+        if kd == "call" and depth < 3:
+            callee, prm = _callee(ctx, fn, det, k)
+            if callee is not None:
+                loads = [n for n in ast.walk(callee) if isinstance(n, ast.Name) and isinstance(n.ctx, ast.Load) and n.id == prm]
+                inner = _site_uses(ctx, callee, names, loads, {prm: created}, created, depth + 1)
+                # the callee handing the object back makes the call expression an alias we do not follow
+                found.extend((("call", det + " (returns it)", n_) if kd_ == "return" else (kd_, det_, n_)) for kd_, det_, n_ in inner)
+                return
+        found.append((kd, det, node))
     while work:
         node = work.pop()
         unit = _unit_of(node)
         if unit is None:
-            found.append(("call", "a statement the analysis cannot evaluate", node))
-            continue
+            raise AnalysisError(f"R18f: use of an unregistered Index at line {getattr(node, 'lineno', '?')} of "
+                                f"{getattr(fn, '_qual', fn.name)} is not inside an evaluable statement")
         key = (getattr(unit, "lineno", 0), getattr(unit, "col_offset", 0), type(unit).__name__, id(unit) if isinstance(unit, ast.Return) and unit.value is node else 0)
         if key in done:
             continue
@@ -1152,30 +1184,29 @@ def _site_uses(ctx, fn, call, names):
         try:
             outs = sx.run_block(fn, [unit], env)
         except AnalysisError as err:
-            found.append(("call", f"a statement the analysis cannot evaluate ({err})"[:160], node))
-            continue
+            raise AnalysisError(f"R18f: statement at line {getattr(unit, 'lineno', '?')} of {getattr(fn, '_qual', fn.name)} using an "
+                                f"unregistered Index cannot be evaluated: {err}")
         new_alias = False
         for o in outs:
             vals = []
             if o.kind == "return":
-                for kd, det in _positions(o.value):
+                for kd, det, k in _positions(o.value):
                     # a synthesised return is only a header expression; a real return hands the object out
                     if kd == "plain" and isinstance(unit, ast.Return) and getattr(unit, "_parent", None) is not None:
                         found.append(("return", det, node))
-                    elif kd != "plain":
-                        found.append((kd, det, node))
+                    else:
+                        note(kd, det, k, node)
             for n, v in (o.env or {}).items():
                 if n in local and not (isinstance(v, T) and v.op == "sym") and n not in aliases:
                     ps = _positions(v)
-                    if ps and all(kd == "plain" for kd, _ in ps):
+                    if ps and all(kd == "plain" for kd, _, _ in ps):
                         aliases[n] = v
                         new_alias = True
                     else:
                         vals.append(v)
             for v in vals + [e for e in o.effects if not _is_created(e)]:
-                for kd, det in _positions(v):
-                    if kd != "plain":
-                        found.append((kd, det, node))
+                for kd, det, k in _positions(v):
+                    note(kd, det, k, node)
         if new_alias:
             for n in ast.walk(fn):
                 if isinstance(n, ast.Name) and isinstance(n.ctx, ast.Load) and n.id in aliases:
@@ -1194,7 +1225,7 @@ def _placeholder_discipline(ctx, fn):
         return f"the function cannot be evaluated as a whole ({str(err)[:120]})"
     for o in outs:
         for e in o.effects:
-            bad = [(kd, det) for kd, det in _positions(e) if kd not in ("scalar", "eliminated", "plain")]
+            bad = [(kd, det) for kd, det, _ in _positions(e) if kd not in ("scalar", "eliminated", "plain")]
             if bad and not _is_created(e):
                 return f"the created index is handed to {bad[0][1]} ({show(e)[:120]})"
         if o.kind != "return" or not _positions(o.value):
@@ -1247,7 +1278,11 @@ def r18f(ctx):
             ctx.bad(rule, c, f"`{shown}` at module level creates an Index behind the registry: it prints like the registered index of "
                     "that name, the printed text is ambiguous and importing it merges the two", fn=where, key="created at module level")
             continue
-        uses = _site_uses(ctx, fn, c, names)
+        al = {}
+        if isinstance(c.func, ast.Name) and c.func.id in _local_names(fn):
+            al[c.func.id] = names.denotes(c.func)        # a local alias of the class
+        created = T("call", "Index", tuple(f"<{ast.unparse(x)}>" for x in c.args), tuple((k.arg or "**", f"<{ast.unparse(k.value)}>") for k in c.keywords))
+        uses = _site_uses(ctx, fn, names, [c], al, created)
         idx = [u for u in uses if u[0] == "index"]
         open_ = [u for u in uses if u[0] in ("introduced", "store", "call", "return")]
         if idx:
